@@ -1,6 +1,7 @@
 package basicnode
 
 import (
+	"errors"
 	"io"
 
 	"github.com/ipld/go-ipld-prime/datamodel"
@@ -68,7 +69,9 @@ func (streamBytes) AsString() (string, error) {
 	return mixins.Bytes{TypeName: "bytes"}.AsString()
 }
 func (n streamBytes) AsBytes() ([]byte, error) {
-	return io.ReadAll(n)
+	// read the whole content through a cursor of our own, so that the result
+	// does not depend on earlier reads of this node
+	return io.ReadAll(&streamBytesView{rs: n.ReadSeeker})
 }
 func (streamBytes) AsLink() (datamodel.Link, error) {
 	return mixins.Bytes{TypeName: "bytes"}.AsLink()
@@ -77,5 +80,45 @@ func (streamBytes) Prototype() datamodel.NodePrototype {
 	return Prototype__Bytes{}
 }
 func (n streamBytes) AsLargeBytes() (io.ReadSeeker, error) {
-	return n.ReadSeeker, nil
+	return &streamBytesView{rs: n.ReadSeeker}, nil
+}
+
+// streamBytesView is a read position of its own over the node's underlying
+// io.ReadSeeker: every Read first seeks the underlying stream to this view's
+// offset, so views handed out by AsLargeBytes (and the one AsBytes uses) do not
+// disturb each other, as the LargeBytesNode contract requires.
+type streamBytesView struct {
+	rs  io.ReadSeeker
+	off int64
+}
+
+func (v *streamBytesView) Read(p []byte) (int, error) {
+	if _, err := v.rs.Seek(v.off, io.SeekStart); err != nil {
+		return 0, err
+	}
+	n, err := v.rs.Read(p)
+	v.off += int64(n)
+	return n, err
+}
+
+func (v *streamBytesView) Seek(offset int64, whence int) (int64, error) {
+	switch whence {
+	case io.SeekStart:
+	case io.SeekCurrent:
+		offset += v.off
+	case io.SeekEnd:
+		end, err := v.rs.Seek(offset, io.SeekEnd)
+		if err != nil {
+			return 0, err
+		}
+		v.off = end
+		return end, nil
+	default:
+		return 0, errors.New("streamBytes: invalid whence")
+	}
+	if offset < 0 {
+		return 0, errors.New("streamBytes: negative position")
+	}
+	v.off = offset
+	return offset, nil
 }
